@@ -827,15 +827,102 @@ theorem monAddr_ok {R : List Resource} {V : List BVal} {env : VEnv} (cx : Ctx R 
   obtain ⟨s, n, rfl⟩ := ofVal_bty_mon hb
   exact ⟨s, n, by simp [leftAsset, evalMon, hv1], hv2⟩
 
+/-! ### a typed expression that is not a portion contains no portion literal -/
+
+theorem visitExpr_noPortion {st : CState} {e : Expr} {o : ExprOut} (h : visitExpr st e = .ok o) (ht : o.ty ≠ .portion) :
+    e.noPortion = true := by
+  induction e generalizing st o with
+  | acct _ => rfl
+  | asset _ => rfl
+  | num _ => rfl
+  | str _ => rfl
+  | var _ => rfl
+  | portion r =>
+    simp only [visitExpr, litOut] at h
+    split at h
+    · cases h
+    · simp only [Except.ok.injEq] at h; subst h; exact absurd rfl ht
+  | badPortion => simp [visitExpr] at h
+  | mon ae k ih =>
+    simp only [Expr.noPortion]
+    simp only [visitExpr] at h
+    split at h
+    · cases h
+    · rename_i ao hao
+      split at h
+      · cases h
+      · rename_i hty
+        exact ih hao (by rw [Classical.not_not.mp hty]; decide)
+  | add l r ihl ihr =>
+    simp only [Expr.noPortion, Bool.and_eq_true]
+    simp only [visitExpr] at h
+    split at h
+    · cases h
+    · rename_i lo hlo
+      split at h
+      · rename_i hnum
+        split at h
+        · cases h
+        · rename_i ro hro
+          split at h
+          · cases h
+          · rename_i hrt
+            exact ⟨ihl hlo (by rw [hnum]; decide), ihr hro (by rw [Classical.not_not.mp hrt]; decide)⟩
+      · split at h
+        · rename_i hmon
+          split at h
+          · cases h
+          · rename_i ro hro
+            split at h
+            · cases h
+            · rename_i hrt
+              exact ⟨ihl hlo (by rw [hmon]; decide), ihr hro (by rw [Classical.not_not.mp hrt]; decide)⟩
+        · cases h
+  | sub l r ihl ihr =>
+    simp only [Expr.noPortion, Bool.and_eq_true]
+    simp only [visitExpr] at h
+    split at h
+    · cases h
+    · rename_i lo hlo
+      split at h
+      · rename_i hnum
+        split at h
+        · cases h
+        · rename_i ro hro
+          split at h
+          · cases h
+          · rename_i hrt
+            exact ⟨ihl hlo (by rw [hnum]; decide), ihr hro (by rw [Classical.not_not.mp hrt]; decide)⟩
+      · split at h
+        · rename_i hmon
+          split at h
+          · cases h
+          · rename_i ro hro
+            split at h
+            · cases h
+            · rename_i hrt
+              exact ⟨ihl hlo (by rw [hmon]; decide), ihr hro (by rw [Classical.not_not.mp hrt]; decide)⟩
+        · cases h
+
+theorem visitTyped_noPortion {st st' : CState} {want : BTy} {e : Expr} {a : Addr} {c : Code}
+    (h : visitTyped st want e = .ok (a, c, st')) (hw : want ≠ .portion) : e.noPortion = true := by
+  unfold visitTyped at h
+  split at h
+  · cases h
+  · rename_i o ho
+    split at h
+    · cases h
+    · rename_i hty
+      exact visitExpr_noPortion ho (by rw [Classical.not_not.mp hty]; exact hw)
+
 /-! ### sources -/
 
 mutual
-/-- the source fragment of `compile_correct_partial`: account (any overdraft clause) | `max … from` | in-order
-lists; no portion literal inside its expressions; lists shorter than 2^64 (the operand of `FUNDING_ASSEMBLE`
-travels through `Uint64()`) -/
+/-- the source fragment — every source: account (any overdraft clause) | `max … from` | in-order lists; the one
+side condition: lists shorter than 2^64 (the operand of `FUNDING_ASSEMBLE` travels through `Uint64()`) -/
 def Source.frag : Source → Bool
-  | .acct e od => e.noPortion && (match od with | .upTo x => x.noPortion | _ => true)
-  | .maxed cap s => cap.noPortion && s.frag
+  | .acct _ _ => true
+  | .maxed _ s => s.frag
   | .inorder ss => ss.frag && decide (ss.len < 18446744073709551616)
 def SourceList.frag : SourceList → Bool
   | .nil => true
@@ -1107,7 +1194,6 @@ theorem source_ok {R : List Resource} {V : List BVal} {env : VEnv} (cx : Ctx R V
     SrcSpec V env asset E s so := by
   cases s with
   | acct e od =>
-    simp only [Source.frag, Bool.and_eq_true] at hf
     simp only [visitSource] at hv
     split at hv
     · cases hv
@@ -1127,7 +1213,7 @@ theorem source_ok {R : List Resource} {V : List BVal} {env : VEnv} (cx : Ctx R V
             · simp only [Except.ok.injEq] at hv; subst hv
               have hsub1 : Sub st1 R := hsub
               have hext1 := srcBody_ext hb
-              have hacc := acctExpr_ok cx ho (hsub1.of_ext hext1) hidx hf.1 hty'
+              have hacc := acctExpr_ok cx ho (hsub1.of_ext hext1) hidx (visitExpr_noPortion ho (by rw [hty']; decide)) hty'
               have hworld := isWorldAddr_lit ho hidx hty' haddr
               intro m S ks b hok
               simp only [evalSource]
@@ -1178,7 +1264,8 @@ theorem source_ok {R : List Resource} {V : List BVal} {env : VEnv} (cx : Ctx R V
                       · rename_i hxt
                         simp only [Except.ok.injEq, Prod.mk.injEq] at hb
                         obtain ⟨rfl, rfl, rfl⟩ := hb
-                        have hmon := monExpr_ok cx hxo hsub1 ((visitExpr_ext ho).varIdxOK hidx) hf.2 (Classical.not_not.mp hxt)
+                        have hmon := monExpr_ok cx hxo hsub1 ((visitExpr_ext ho).varIdxOK hidx)
+                          (visitExpr_noPortion hxo (by rw [Classical.not_not.mp hxt]; decide)) (Classical.not_not.mp hxt)
                         cases hxm : evalMon env xx with
                         | error er =>
                           rw [hxm] at hmon
@@ -1231,7 +1318,7 @@ theorem source_ok {R : List Resource} {V : List BVal} {env : VEnv} (cx : Ctx R V
                           simp only [List.mem_singleton] at hq; subst hq; rw [hp1]; exact hp2
                         · simp only [exec_append, hex, hpa, hc', runEmits, push_upd, step_monetaryNew, hp4]
   | maxed cap s =>
-    simp only [Source.frag, Bool.and_eq_true] at hf
+    simp only [Source.frag] at hf
     simp only [visitSource] at hv
     split at hv
     · cases hv
@@ -1250,8 +1337,9 @@ theorem source_ok {R : List Resource} {V : List BVal} {env : VEnv} (cx : Ctx R V
             have hes := emitSeq_ext hs
             have hec := visitExpr_ext hco
             have hso1 := (visitSource_ok hso).1
-            have ih := source_ok cx asset hpa hso ((hsub1.of_ext hes).of_ext hec) hidx hf.2
-            have hmon := monExpr_ok cx hco (hsub1.of_ext hes) (hso1.varIdxOK hidx) hf.1 (Classical.not_not.mp hct)
+            have ih := source_ok cx asset hpa hso ((hsub1.of_ext hes).of_ext hec) hidx hf
+            have hmon := monExpr_ok cx hco (hsub1.of_ext hes) (hso1.varIdxOK hidx)
+              (visitExpr_noPortion hco (by rw [Classical.not_not.mp hct]; decide)) (Classical.not_not.mp hct)
             intro m S ks b hok
             have h1 := ih m S ks b hok
             simp only [evalSource]
